@@ -1,6 +1,7 @@
 /-
 Model of `rl4co/envs/routing/mdcpdp/env.py:MDCPDPEnv` for ONE batch row, mirroring `_reset`, `_step`
-and `_get_reward` statement by statement (start_mode = "order").  No Mathlib.
+and `_get_reward` statement by statement.  start_mode "random" only differs in the initial value of
+`current_depot`, which is instance data here (`Inst.start`, read back from the reset state).  No Mathlib.
 
 Node layout as the *step function* sees it: `K := capacity.shape[-1]` depots `0..K-1`,
 `h := (N - K) // 2` pickups `K..K+h-1`, the rest deliveries; `N := locs.shape[-2]` (depots ++ customers).
@@ -34,6 +35,7 @@ structure Inst where
   openMode : Bool            -- `problem_mode == "open"`
   wNum   : Int               -- `lateness_weight = wNum / wDen`
   wDen   : Int
+  start  : Nat := 0          -- `_reset`: initial `current_depot` (0 for start_mode "order", a random depot for "random")
 
 /-- `num_loc // 2` of `_step` -/
 def Inst.h (i : Inst) : Nat := (i.N - i.K) / 2
@@ -51,9 +53,9 @@ structure State where
   mask      : Nat → Bool     -- `action_mask`
   done      : Bool
 
-/-- `_reset` (start_mode "order"): only node 0 is offered. -/
+/-- `_reset`: only node 0 is offered (whatever `current_depot` starts with). -/
 def reset (i : Inst) : State :=
-  { cur := 0, depot := 0, carry := 0, len := fun _ => 0, arrive := fun _ => 0,
+  { cur := 0, depot := i.start, carry := 0, len := fun _ => 0, arrive := fun _ => 0,
     toDeliver := fun j => decide (j < i.split0), avail := fun _ => true,
     mask := fun j => decide (j = 0), done := false }
 
